@@ -259,6 +259,17 @@ def substitute_rules(rep, repo, cmod):
     line_loop = next((l for l in loops if norm(l.iter) == f'{implvar}.lines'), None)
     in_loop = next((l for l in loops if norm(l.iter).replace(' ', '') == 'zip(impl_in_nodes,node_in_lines)'), None)
     out_loop = next((l for l in loops if norm(l.iter).replace(' ', '') == 'zip(impl_out_lines,node_out_lines)'), None)
+    # substitute has no early exit, and pruning (remove_dangling_nodes) happens only for implementation outputs left unconnected
+    for r in [n for n in ast.walk(f) if isinstance(n, ast.Return)]:
+        rep.violate('C10.sub-shape', cmod, f, r, 'substitute returns early: the steps after it (dropping connections to pins the implementation ignores, re-wiring inputs '
+                    'and outputs, removing the instance node consistently) are skipped for some cells', node=r)
+    rep.ob('C10.sub-shape', 'substitute has no early return', not any(isinstance(n, ast.Return) for n in ast.walk(f)))
+    for c in [c for c in find_all(f, ast.Call) if (call_name(c) or '').endswith('remove_dangling_nodes')]:
+        inside_out = out_loop is not None and any(n is c for n in ast.walk(out_loop))
+        rep.ob('C10.sub-shape', f'{norm(c)[:50]} in the output loop', inside_out)
+        if not inside_out:
+            rep.violate('C10.sub-shape', cmod, f, c, f'substitute: `{norm(c)[:70]}` outside the output loop: pruning is only defined for logic in front of an implementation output that the '
+                        f'instance leaves unconnected (it does not stop at ports or state elements of the surrounding circuit)', node=c)
     ok = all(x is not None for x in (node_loop, line_loop, in_loop, out_loop))
     rep.ob('C10.sub-shape', 'four loops', ok)
     if not ok:
